@@ -20,10 +20,11 @@ print(m)
 caught = re.search(r"CAUGHT-BY:(.*)", m).group(1).split() if "CAUGHT-BY:" in m else []
 silent = re.search(r"SILENT:(.*)", m).group(1).split() if "SILENT:" in m else []
 details = [l for l in m.splitlines() if l.startswith("== ") or "failing input" in l or "broken:" in l]
+verdicts = {l.split(":")[0].replace("== ", ""): ("no-failing-input-found" if "no-failing-input-found" in l else "concrete") for l in m.splitlines() if l.startswith("== ")}
 meta = {"breaks_property": prop, "mutant": int(n),
         "what_it_needs_to_manifest": "see README excerpt", "readme_excerpt": readme[:6000],
         "confirmed": {"how": "confirm_mutant.sh in scratch worktree " + wt + ": cargo test --offline --lib with the change; cargo build --features serde; demo test with and without the change", "output": out},
         "checks_run": "mutest.sh (quick tier, VERIF_SEED=1) over " + (" ".join(checks) if checks else "all registered checks"),
-        "caught_by": caught, "silent": silent, "details": details[:40]}
+        "caught_by": caught, "silent": silent, "verdicts": verdicts, "details": details[:120]}
 json.dump(meta, open(f"{d}/meta.json", "w"), indent=1)
 print("caught by", caught)
